@@ -120,6 +120,178 @@ def deliverOp (st : ClientState) (n : Nat) (es : List Event) (impl : String) (wi
     let evs := renderEvents (msgs.map (fun x => (n, x)))
     ({ st with m := m' }, verdictOf (if withRes then s!"{resTok res};{evs}" else evs) impl)
 
+/-! ### op `race`: two overlapping operations.  The model result is "A, then B": whatever B needs
+    a lock for that the holder of the held message owns waits for it (`C19.conc_refines`: every
+    interleaving is a sequential run in lock order); a monitor callback that arrives while the
+    wrapper's own worker is the holder only stores the flag (its non-blocking wake-up is lost). -/
+
+def deliverEvents (m : Mgr) (n : Nat) (es : List Event) : Mgr × List Msg × Res :=
+  es.foldl (fun (acc : Mgr × List Msg × Res) e =>
+    match deliver acc.1 n e with
+    | some (m2, ms, r) => (m2, acc.2.1 ++ ms, if r == .none then acc.2.2 else r)
+    | none => acc) (m, [], Res.none)
+
+/-- one operand on the model: new state, messages in order, result token -/
+def raceApply (st : ClientState) (tok : List String) (storeOnly : Bool) :
+    Option (ClientState × List (Nat × Msg) × String) :=
+  match tok with
+  | "upd" :: now :: dup :: cs =>
+    match now.toNat?, dup.toNat?, parseAll parseCfg cs with
+    | some now, some dup, some cfgs =>
+      if (dup == 1) != dupFlag cfgs then none else
+      let (m', stp, ev) := updateAll st.m cfgs now
+      some ({ st with m := m', stopped := st.stopped ++ sortByName stp, lastCfgs := some cfgs }, ev, "-")
+    | _, _, _ => none
+  | ["close"] =>
+    let (m', stp, ev) := closeAll st.m
+    some ({ st with m := m', stopped := st.stopped ++ sortByName stp, lastCfgs := none }, ev, "-")
+  | ["tick", n, now] =>
+    match n.toNat?, now.toNat? with
+    | some n, some now =>
+      match Reconcile.find st.m n with
+      | none => some (st, [], "none")
+      | some _ =>
+        let (m', ms, _) := deliverEvents st.m n [.tick now]
+        some ({ st with m := m' }, ms.map (fun x => (n, x)), "-")
+    | _, _ => none
+  | ["resp", n, now, r] =>
+    match n.toNat?, now.toNat? with
+    | some n, some now =>
+      match Reconcile.find st.m n with
+      | none => some (st, [], "notfound")
+      | some _ =>
+        let (m', ms, res) := deliverEvents st.m n [.startResp now (r == "err")]
+        some ({ st with m := m' }, ms.map (fun x => (n, x)), resTok res)
+    | _, _ => none
+  | ["work", n] =>
+    match n.toNat? with
+    | some n =>
+      match Reconcile.find st.m n with
+      | none => some (st, [], "closed")
+      | some w => some (st, [], resTok (step w .inWorkConn).2.2)
+    | none => none
+  | [op, n, now] =>
+    if op != "hup" && op != "hdown" then none else
+    match n.toNat?, now.toNat? with
+    | some n, some now =>
+      match Reconcile.find st.m n with
+      | none => some (st, [], "none")
+      | some w =>
+        if !w.cfg.health then some (st, [], "nohealth") else
+        let e : Event := if op == "hup" then .healthUp else .healthDown
+        let (m', ms, _) := deliverEvents st.m n (if storeOnly then [e] else [e, .tick now])
+        some ({ st with m := m' }, ms.map (fun x => (n, x)), "-")
+    | _, _ => none
+  | _ => none
+
+def dedupNat : List Nat → List Nat
+  | [] => []
+  | x :: xs => x :: (dedupNat xs).filter (· != x)
+
+def msgChar : Msg → String
+  | .newProxy => "N" | .closeProxy => "C"
+
+/-- wire order per proxy name, the held message marked -/
+def raceRender (ms : List (Nat × Msg × Bool)) : String :=
+  if ms.isEmpty then "-" else
+  ",".intercalate ((sortNat (dedupNat (ms.map (·.1)))).map (fun n =>
+    s!"{n}:" ++ String.join ((ms.filter (·.1 == n)).map (fun x => msgChar x.2.1 ++ (if x.2.2 then "*" else "")))))
+
+def markFirst (h : Nat) (k : Msg) : List (Nat × Msg) → List (Nat × Msg × Bool)
+  | [] => []
+  | (n, m) :: rest =>
+    if n == h && m == k then (n, m, true) :: rest.map (fun x => (x.1, x.2, false))
+    else (n, m, false) :: markFirst h k rest
+
+def parseSeq : List Char → Option (List (Msg × Bool))
+  | [] => some []
+  | c :: '*' :: rest =>
+    if c == 'N' then (parseSeq rest).map (fun r => (Msg.newProxy, true) :: r)
+    else if c == 'C' then (parseSeq rest).map (fun r => (Msg.closeProxy, true) :: r) else none
+  | c :: rest =>
+    if c == 'N' then (parseSeq rest).map (fun r => (Msg.newProxy, false) :: r)
+    else if c == 'C' then (parseSeq rest).map (fun r => (Msg.closeProxy, false) :: r) else none
+
+def parseWire (s : String) : Option (List (Nat × List (Msg × Bool))) :=
+  if s == "-" then some [] else
+  parseAll (fun t => match t.splitOn ":" with
+    | [n, q] => do let n ← n.toNat?; let q ← parseSeq q.toList; pure (n, q)
+    | _ => none) (s.splitOn ",")
+
+def parsePhase (t : String) : Option Phase :=
+  if t == "new" then some .new else if t == "wait" then some .waitStart else if t == "err" then some .startErr
+  else if t == "run" then some .running else if t == "chk" then some .checkFailed
+  else if t == "closed" then some .closed else none
+
+def parseStatus (s : String) : Option (List (Nat × Phase)) :=
+  if s == "-" then some [] else
+  parseAll (fun t => match t.splitOn ":" with
+    | n :: ph :: _ => do let n ← n.toNat?; let ph ← parsePhase ph; pure (n, ph)
+    | _ => none) (s.splitOn ",")
+
+structure RaceImpl where
+  wire : List (Nat × List (Msg × Bool))
+  aClosed : Bool
+  status : List (Nat × Phase)
+
+def parseRaceImpl (impl : String) : Option RaceImpl :=
+  match impl.splitOn ";" with
+  | [w, _, _, a, st] =>
+    if !(w.startsWith "w=" && a.startsWith "a=" && st.startsWith "st=") then none else do
+    let wire ← parseWire (w.drop 2).toString
+    let status ← parseStatus (st.drop 3).toString
+    pure { wire := wire, aClosed := a == "a=closed", status := status }
+  | _ => none
+
+/-- the C19 predicates on the implementation's own answer to a `race` op -/
+def raceHoldsOn (r : RaceImpl) : Bool :=
+  r.wire.all (fun (n, q) =>
+    C19.raceSyncOK (q.map (·.1)) ((r.status.find? (·.1 == n)).map (·.2)) &&
+    (!(q.any (·.2)) || C19.raceStopOK q r.aClosed))
+
+def splitAt (sep : String) : List String → List String × List String
+  | [] => ([], [])
+  | t :: ts => if t == sep then ([], ts) else let r := splitAt sep ts; (t :: r.1, r.2)
+
+def raceStep (st : ClientState) (kind : String) (rest : List String) (impl : String) : ClientState × Verdict :=
+  let (aTok, bTok) := splitAt "/" rest
+  let kindC := (kind.take 1).toString
+  let kindName : Option Nat := (kind.drop 1).toString.toNat?
+  let k : Msg := if kindC == "N" then .newProxy else .closeProxy
+  let ri := parseRaceImpl impl
+  match raceApply st aTok false with
+  | none => (st, .bad "race A")
+  | some (st1, msgsA, resA) =>
+    -- which message was held: the implementation's choice if the model allows it
+    let cand := ((msgsA.filter (·.2 == k)).map (·.1)).filter (fun n => kindName.all (· == n))
+    let implHeld : Option Nat := ri.bind (fun r => (r.wire.find? (fun x => x.2.any (·.2))).map (·.1))
+    let held : Option Nat := match implHeld with
+      | some h => if cand.contains h then some h else cand.head?
+      | none => cand.head?
+    let aOp := aTok.headD ""
+    let aIsWorker := aOp == "tick" || aOp == "hup" || aOp == "hdown" || (aOp == "upd" && kindC == "N")
+    let bOp := bTok.headD ""
+    let storeOnly := aIsWorker && (bOp == "hup" || bOp == "hdown") &&
+      (match held, (bTok.getD 1 "").toNat? with | some h, some n => h == n | _, _ => false)
+    match raceApply st1 bTok storeOnly with
+    | none => (st, .bad "race B")
+    | some (st2, msgsB, resB) =>
+      let wire := (match held with
+        | some h => markFirst h k msgsA
+        | none => msgsA.map (fun x => (x.1, x.2, false))) ++ msgsB.map (fun x => (x.1, x.2, false))
+      let aPhase := match held with
+        | none => "-"
+        | some h =>
+          if aOp == "upd" && kindC == "C" then "closed" else
+          match Reconcile.find st1.m h with
+          | none => "-"
+          | some w =>
+            match st2.m.proxies.find? (fun (x : W) => x.cfg.name == h && x.id == w.id) with
+            | some x => phaseTok x.phase
+            | none => "closed"
+      let model := s!"w={raceRender wire};ra={resA};rb={resB};a={aPhase};st={statusStr st2.m}"
+      (st2, verdictOf model impl (ri.map raceHoldsOn))
+
 def clientStep (st : ClientState) (tok : List String) (impl : String) : ClientState × Verdict :=
   match tok with
   | ["reset"] => ({}, verdictOf "-" impl)
@@ -171,6 +343,7 @@ def clientStep (st : ClientState) (tok : List String) (impl : String) : ClientSt
         (st, verdictOf (resTok r) impl (some ((impl == "handed") == (w.phase == .running))))
     | none => (st, .bad "work")
   | ["status"] => (st, verdictOf (statusStr st.m) impl)
+  | "race" :: kind :: rest => raceStep st kind rest impl
   | ["close"] =>
     let (m', stp, ev) := closeAll st.m
     ({ st with m := m', stopped := st.stopped ++ sortByName stp, lastCfgs := none },
